@@ -22,7 +22,8 @@ sys.path.insert(0, os.getcwd())
 from checks import common as c
 ctx = c.Ctx("setup", "quick", 1)
 for d, pkg in c.harness_packages().items():
-    rc, out = c.sh(["go", "test", "-tags", "verif", "-overlay", c.overlay_file(ctx), "-vet=off", "-count=1", "-run", "^$", "./" + pkg + "/"], cwd=c.REPO, env=c.GOENV)
+    pre = c.NETNS_PREFIX if c.netns_available() else []
+    rc, out = c.sh(pre + ["go", "test", "-tags", "verif", "-overlay", c.overlay_file(ctx), "-vet=off", "-count=1", "-run", "^$", "./" + pkg + "/"], cwd=c.REPO, env=c.GOENV)
     print(pkg, "compile rc", rc, out[-300:])
     if rc != 0: sys.exit(1)
 ctx.cleanup()
